@@ -505,6 +505,28 @@ def impl_c15(case, scratch):
     return {"outcome": "ok", "outs": outs}
 
 
+def impl_preprocess(case, scratch):
+    """Wtp.preprocess_text on each text; the result as items: code point | ['nw', content] | ['nwe']"""
+    from wikitextprocessor.common import MAGIC_FIRST, MAGIC_LAST, MAGIC_NOWIKI_CHAR
+    ctx = parse_ctx(scratch)
+    outs = []
+    for t in case["texts"]:
+        ctx.start_page("Tt")
+        r = ctx.preprocess_text(t)
+        items = []
+        for ch in r:
+            o = ord(ch)
+            if ch == MAGIC_NOWIKI_CHAR:
+                items.append(["nwe"])
+            elif MAGIC_FIRST <= o <= MAGIC_LAST and o - MAGIC_FIRST < len(ctx.cookies):
+                kind, args, nowiki = ctx.cookies[o - MAGIC_FIRST]
+                items.append(["nw", args[0]] if kind == "N" else ["cookie", kind])
+            else:
+                items.append(o)
+        outs.append(items)
+    return {"outcome": "ok", "outs": outs}
+
+
 # ---------------------------------------------------------------- C08
 C08_TEMPLATES = {
     "a": "A[{{{1|}}}]",
